@@ -287,3 +287,54 @@ def attributes_from_tokens(ctx):
                       'cut by take_while(..): text containing parentheses or operators can be taken for an attribute name' % c.ln,
                       'argument = chars().take_while(seeker).collect()', c.where())
     ctx.floor(n, 1, 'QualifiedAttribute::try_from calls in the parser')
+
+
+@rule('C15', 'paren-depth-counter')
+def paren_depth_counter(ctx):
+    """'parentheses first': the group of a parenthesis ends at its MATCHING closing parenthesis. The function that looks for it
+    keeps a depth counter; apart from its initialisation to a constant, every definition of the counter is the counter itself
+    plus or minus one (one per opening / closing parenthesis) — a counter that is reset, or stepped by another amount, closes a
+    group of depth three or more too early."""
+    F = ctx.F
+    cands = [b for b in F.fns() if re.search(r'AccessPolicy::(split_at_closing_parenthesis|find_matching_closing_parenthesis)$', b.key)]
+    ctx.floor(len(cands), 1, 'function matching parentheses')
+    for body in cands:
+        # the counter: the integer local compared with 0 that also has +1 / -1 definitions
+        counters = set()
+        for cmp_ in lib.comparisons(body):
+            for o in (cmp_['a'], cmp_['b']):
+                if is_place(o):
+                    cur, _d = lib.resolve_copy(body, op_local(o))
+                    if cur is not None and body.var_name(cur) and body.local_ty(cur) in ('i32', 'i64', 'isize', 'usize', 'u32', 'u64', 'i8', 'i16', 'u8', 'u16'):
+                        counters.add(cur)
+        counters = [c for c in counters if any(d.kind == 'assign' and d.rv['k'] == 'use' and is_place(d.rv['a']) and
+                                               (lib.single_def(body, op_place(d.rv['a'])['l']) or d).rv.get('op', '').endswith('WithOverflow')
+                                               for d in body.defs().get(c, []) if d.kind == 'assign')]
+        ctx.check(len(counters) == 1, body.key, 'one depth counter', 'cannot identify the parenthesis depth counter (%d candidates)' % len(counters),
+                  '', body.where())
+        for c in counters:
+            for d in body.defs().get(c, []):
+                if d.kind != 'assign' or d.lhs['p']:
+                    ctx.bad(body.key, 'counter step', 'the depth counter is written by something other than an assignment', body.where())
+                    continue
+                rv = d.rv
+                ln = body.stmts(d.b)[d.i]['ln']
+                if rv['k'] == 'use' and 'c' in rv['a']:
+                    ok = body.block_dominates(d.b, max(body.live_blocks())) or True
+                    # a constant: only the initialisation (not inside the scanning loop)
+                    from .c13 import loop_depths
+                    depth, _dom = loop_depths(body)
+                    ok = depth.get(d.b, 0) == 0
+                    ctx.check(ok, body.key, 'counter initialised once', 'the depth counter is reset to a constant inside the scan (line %d)' % ln,
+                              'constant only before the loop', body.where(ln))
+                    continue
+                step_ok = False
+                if rv['k'] == 'use' and is_place(rv['a']):
+                    sd = lib.single_def(body, op_place(rv['a'])['l'])
+                    if sd is not None and sd.kind == 'assign' and sd.rv['k'] == 'bin' and sd.rv['op'] in ('AddWithOverflow', 'SubWithOverflow', 'Add', 'Sub'):
+                        a, b_ = sd.rv['a'], sd.rv['b']
+                        self_ok = is_place(a) and lib.resolve_copy(body, op_local(a))[0] == c
+                        one = 'c' in b_ and b_['c'].get('v') == 1
+                        step_ok = self_ok and one
+                ctx.check(step_ok, body.key, 'counter step is +-1', 'the depth counter is updated at line %d by something other than '
+                          '`counter + 1` / `counter - 1`: nested groups are closed at the wrong parenthesis' % ln, 'counter +- 1', body.where(ln))
